@@ -4,7 +4,7 @@ C18 lemmas, layer 4: the transaction a writer plans (`planDelete`, `planUpdate`,
 `moveFrags` on the fragments it has read; the rows it moves are the visible rows at its affected addresses.
 -/
 namespace LanceModel.C18
-open LanceModel.Table LanceModel.C17 List
+open LanceModel.Table LanceModel.C17Base List
 
 theorem find_by_id {l : List Frag} (hn : (fragIds l).Nodup) {u : Frag} (hu : u ∈ l) :
     l.find? (fun x => x.id == u.id) = some u := by
